@@ -32,7 +32,7 @@ EXPLANATION = (
     "over the CFG (conditions evaluated under `v == NULL`, short-circuit and ?: honoured, callee parameters summarised): "
     "elements of lists into whose links some writer stores NULL (discovered: the USE and REFERENCE schema lists) are not "
     "dereferenced untested in any tool-reachable traversal, and in the front end no local that receives the result of a "
-    "function that may return NULL (least fixed point over `return`) is dereferenced while it may still be NULL. Not decided: heap-block destinations beyond two idioms (listed as heap_not_decided), parser "
+    "function that may return NULL (least fixed point over `return`) is dereferenced while it may still be NULL. (E2t) every strncpy into a fixed char array with a constant size is followed, on every path to the next use of the array, by a store of 0 at an index not above that size - or cannot need one (literal source shorter than the size; zero-initialised storage whose tail is never written; a constructor-established terminator beyond the size; identifier sources under the identifier-length assumption). Not decided: heap-block destinations beyond two idioms (listed as heap_not_decided), parser "
     "stack growth, generated lexer internals, hash.c internals, bounded time, signed overflow.")
 
 ENTRIES = ["main", "EXPRESSparse", "EXPRESSresolve", "print_file", "EXPRESSinit_init"]
